@@ -852,6 +852,8 @@ class Images(productmd.common.MetadataBase):
     def _validate_image_paths(self):
         for platform in self.images:
             for image, path in self.images[platform].items():
+                if not isinstance(path, six.string_types):
+                    raise TypeError("Image path must be a string: %r" % (path, ))
                 if path.startswith("/"):
                     raise ValueError("Only relative paths are allowed for images: %s" % path)
 
